@@ -138,6 +138,10 @@ func (g *sgen) stream(id int, faults bool) {
 		open = "out:" + g.payload(g.size()) + ";ret:none"
 	case 1:
 		open = "out:" + g.payload(g.size()) + ";write:" + g.payload(g.size()) + ";ret:none"
+	case 2:
+		if g.r.Intn(4) == 0 {
+			open = []string{"elclose;out:" + g.payload(3) + ";ret:none", "out:" + g.payload(5) + ";ret:close", "close;ret:none", "out:;ret:none"}[g.r.Intn(4)]
+		}
 	}
 	g.emit("prog open " + open)
 	g.emit("prog traffic " + g.trafficProg())
